@@ -45,6 +45,10 @@ CORPUS = [
     "{{ a | sort | reverse | first }}|{{ s | split: '' | uniq | join: '' }}|{{ x | at_least: 2 | at_most: 3 }}|{{ s | truncate: 2, '' }}|{{ x | json }}|{{ h | json: 1 }}",
     "{% if a.size > 1 and a[0] != a[1] %}S{% endif %}{% if s == empty or s == blank %}E{% endif %}{% if x <= 2 and x >= 0 and x < 9 and x <> 7 %}R{% endif %}{% if 'a' in s or s contains 'b' %}I{% endif %}",
     "{% if not x %}N{% endif %}{% if not (b and s) or x == 2 %}P{% endif %}{% if (x == 1 or x == 2) and b %}Q{% endif %}{% if x == 1 or b and s %}T{% endif %}",
+    # the liquid tag serialises its line statements from tokens, not from the AST: every literal kind again, with the other quote inside
+    "{% liquid\n echo \"it's\"\n echo 'q\"r'\n assign w = \"a' | upcase | append: 'b\"\n echo w\n echo \"x\\\"y\" | append: 'a\\'b'\n echo \"v${x}w\"\n echo 'n=${ x | plus: 1 }' | append: \"'\"\n%}",
+    "{% liquid\n echo a | map: i => i | join: \"', '\"\n echo 'y' if x else \"n'\"\n for i in (1..x) reversed limit: 2\n echo o[\"a b\"]\n echo o['k'].z\n endfor\n case x\n when 1, 2\n echo \"one'two\"\n else\n echo nil\n endcase\n%}",
+    "{% if s == \"a'\" or s == 'b\"' %}1{% endif %}{% assign v = \"'\" | append: '\"' %}{{ v }}{% for i in a limit: 1 %}{% cycle \"a'\", 'b\"' %}{% endfor %}{% case s %}{% when \"a'\" %}A{% endcase %}{% render 'p', v: \"'x'\" %}{% echo \"e'\" %}",
 ]
 TEMPLATES = []
 for _s in CORPUS:
@@ -86,7 +90,7 @@ def _out(t, data: dict):
     timeout=240,
     shard={"i": list(range(len(CORPUS)))},
     covers="str(T) parses; T, parse(str(T)), parse(str(parse(str(T)))) and pickle round trip of T render identically (same output or same error class) for all data; str() is a fixed point after one round trip",
-    bounds="20 templates over the full built-in + tablerow tag set and every expression form listed in the property; x int 0..4, b bool, s str over {a b space} len <= 1, a list len <= 2 of ints 0..3, o/h hashes built from them",
+    bounds="23 templates over the full built-in + tablerow tag set and every expression form listed in the property; x int 0..4, b bool, s str over {a b space} len <= 1, a list len <= 2 of ints 0..3, o/h hashes built from them",
     grid=lambda: [(i, x, b, a, s) for i in range(len(CORPUS)) for x in (0, 1, 3) for b in (False, True) for a in ([], [2, 1, 2]) for s in ("", "ab")],
 )
 def d_roundtrip(i: int, x: int, b: bool, a: List[int], s: str) -> bool:
